@@ -175,6 +175,17 @@ def gen_cases(rec, rng, tier):
         t = rxg.random_tree(rng, rng.randint(2, 9), 'abc', bias=rng.choice([None, 'star', 'unit']))
         if rx.size_iter(t) <= 80:
             yield {'kind': 'rx', 'cls': 'random_tree', 'ref': t}
+    # names that differ only in leading zeros, prefixes of each other, digits only
+    for pool in (['0', '00', '1', '01', '001'], ['q1', 'q01', 'q001', 'q10', 'q010'], ['a', 'A', 'aa', 'aA', 'Aa']):
+        for _ in range(3):
+            n = rng.randint(2, 5)
+            nm = rng.sample(pool, n)
+            yield {'kind': 'dfa', 'cls': 'similar_names', 'ref': fag.random_dfa(rng, n, 2, names=nm)}
+            yield {'kind': 'nfa', 'cls': 'similar_names', 'ref': fag.random_nfa(rng, n, 2, eps_density=0.4, density=0.5, names=nm), 'eps': 'ε'}
+            RP0, eps0 = txg.pda(rng)
+            if len(RP0[0]) <= n:
+                from vt.gen import pdag as _pg
+                yield {'kind': 'pda', 'cls': 'similar_names', 'ref': _pg.rename(RP0, dict(zip(RP0[0], nm))), 'eps': eps0}
     for (cls, R) in fag.hostile_dfas(rng):
         yield {'kind': 'dfa', 'cls': 'dfa_' + cls, 'ref': R}
     for (cls, R) in fag.hostile_nfas(rng):
